@@ -341,6 +341,10 @@ func findCoreEndomorphism(strategy *dfs, g []*Statement, cands map[string]map[st
 			q = append(q, s)
 		}
 	}
+	if len(q) == 0 {
+		// No blank node to blank node edges remain to be matched.
+		return mu
+	}
 	sort.Slice(q, func(i, j int) bool {
 		return selectivity(q[i], cands, preds) < selectivity(q[j], cands, preds)
 	})
@@ -364,12 +368,17 @@ func (st *dfs) evaluate(g, q []*Statement, cands map[string]map[string]bool, mu 
 		if isAutomorphism(mup) {
 			return mu
 		}
+		// µ ← µ' ∘ µ
 		for b, x := range mu {
-			if _, ok := mup[b]; !ok {
-				mup[b] = x
+			if y, ok := mup[x]; ok {
+				mu[b] = y
 			}
 		}
-		mu = mup
+		for b, y := range mup {
+			if _, ok := mu[b]; !ok {
+				mu[b] = y
+			}
+		}
 	}
 	return mu
 }
@@ -417,19 +426,25 @@ func (st *dfs) search(g, q []*Statement, cands map[string]map[string]bool, mu ma
 		return nil
 	}
 	sortByCodom(m)
-	mMin := m[0]
 	qp := q[1:]
-	if len(qp) != 0 {
-		for len(m) != 0 {
-			mMin = m[0]
-			mup := st.search(g, qp, cands, mMin)
-			if !isAutomorphism(mup) {
-				return mup
-			}
-			m = m[1:]
+	if len(qp) == 0 {
+		return m[0]
+	}
+	var auto map[string]string
+	for _, mMin := range m {
+		mup := st.search(g, qp, cands, mMin)
+		if mup == nil {
+			// mMin cannot be extended to the remaining patterns.
+			continue
+		}
+		if !isAutomorphism(mup) {
+			return mup
+		}
+		if auto == nil {
+			auto = mup
 		}
 	}
-	return mMin
+	return auto
 }
 
 // isAutomorphism returns whether mu is an automorphism, this is equivalent to
